@@ -4,6 +4,7 @@ package main
 
 import (
 	"fmt"
+	"go/constant"
 	"go/types"
 	"strings"
 
@@ -18,6 +19,7 @@ type Val struct {
 	Loc *Loc // set when the value is a statically known address
 	Nil bool // untyped nil literal
 	Cell bool // a captured variable: T is the address of its cell, a name in a contract means its current content
+	SSA  ssa.Value // the SSA value this symbolic value came from (for Go-side evaluation of constant formats)
 }
 
 // Loc describes a memory location: element Idx of heap array Arr (and position Pos inside a slice backing array).
@@ -41,6 +43,8 @@ type Env struct {
 	entry  map[string]Val // entry values of parameters (for old(x) and x0)
 	sset   map[string]map[string]string
 	callResults map[string][]Val
+	frame  *frame
+	headHeap *Heap // heap at the loop head of the current iteration (back-edge clauses)
 	noUnfold bool
 	depth  int
 }
@@ -180,7 +184,7 @@ func (g *Gen) selectElem(h *Heap, sl Val, idx string) Val {
 	s := sortOf(et)
 	an := elemArrName(s)
 	ea := g.arr(h, an, "(Array Int "+s+")")
-	pos := fmt.Sprintf("(+ (s-off %s) %s)", sl.T, idx)
+	pos := fmt.Sprintf("(slot (s-off %s) %s)", sl.T, idx)
 	return Val{T: fmt.Sprintf("(select (select %s (s-arr %s)) %s)", ea, sl.T, pos), Ty: et,
 		Loc: &Loc{Arr: an, Sort: s, Idx: "(s-arr " + sl.T + ")", Pos: pos, Ty: et}}
 }
@@ -213,6 +217,9 @@ func (g *Gen) tr(e Expr, env *Env) Val {
 		}
 		if env.lookup != nil {
 			if v, ok := env.lookup(x.Name); ok {
+				if v.Cell {
+					return g.loadCell(env.heap, v)
+				}
 				return v
 			}
 		}
@@ -230,6 +237,16 @@ func (g *Gen) tr(e Expr, env *Env) Val {
 		trFail("unknown identifier %s", x.Name)
 	case EParen:
 		return g.tr(x.X, env)
+	case ECall:
+		if x.Fn == "head" && len(x.Args) == 1 {
+			if env.headHeap == nil {
+				trFail("head() is only available in loop clauses evaluated on back edges")
+			}
+			n := *env
+			n.heap = env.headHeap
+			return g.tr(x.Args[0], &n)
+		}
+		return g.trCall(x, env)
 	case EOld:
 		n := *env
 		if env.old != nil {
@@ -366,8 +383,6 @@ func (g *Gen) tr(e Expr, env *Env) Val {
 		return Val{T: res, Ty: tyBool}
 	case EBin:
 		return g.trBin(x, env)
-	case ECall:
-		return g.trCall(x, env)
 	}
 	trFail("cannot translate %s", exprString(e))
 	return Val{}
@@ -626,6 +641,7 @@ func (g *Gen) runeStrDecl() {
 	g.declareFun("runeStr", []string{"Int"}, "Str")
 	g.axiomOnce("runeStr", "(forall ((r Int)) (! (=> (and (<= 0 r) (< r 128)) (and (= (slen (runeStr r)) 1) (= (sat (runeStr r) 0) r))) :pattern ((runeStr r))))")
 	g.axiomOnce("runeStr2", "(forall ((r Int)) (! (and (<= 1 (slen (runeStr r))) (<= (slen (runeStr r)) 4)) :pattern ((runeStr r))))")
+	g.axiomOnce("runeStr3", "(forall ((r Int) (i Int)) (! (=> (and (>= r 128) (<= 0 i) (< i (slen (runeStr r)))) (>= (sat (runeStr r) i) 128)) :pattern ((sat (runeStr r) i))))")
 	g.classClosure()
 }
 
@@ -790,6 +806,28 @@ func (g *Gen) trCall(x ECall, env *Env) Val {
 			ref = "(s-arr " + v.T + ")"
 		}
 		return Val{T: fmt.Sprintf("(select %s %s)", g.arr(h, "alloc", "Bool"), ref), Ty: tyBool}
+	case "deref":
+		// content of a pointer-valued cell (pointer to a local variable holding a reference)
+		v := arg(0)
+		return Val{T: fmt.Sprintf("(select %s %s)", g.arr(env.heap, "C!Int", "Int"), v.T), Ty: tyRef,
+			Loc: &Loc{Arr: "C!Int", Sort: "Int", Idx: v.T, Ty: tyRef}}
+	case "fmtline":
+		// the line fmt would produce for (format, args): expanded Go-side when the format is a constant and
+		// the varargs are built at the call site; otherwise an uninterpreted function of both
+		fv, av := arg(0), arg(1)
+		if fc, ok := fv.SSA.(*ssa.Const); ok && fc.Value != nil && env.frame != nil {
+			if args, ok := varargValues(av.SSA); ok {
+				if term, ok := env.frame.fmtExpand(constant.StringVal(fc.Value), args, nil); ok {
+					return Val{T: term, Ty: tyStr}
+				}
+			}
+			trFail("fmtline: constant format %q cannot be expanded", constant.StringVal(fc.Value))
+		}
+		if c, ok := av.SSA.(*ssa.Const); ok && c.Value == nil {
+			return fv // no arguments: the line is the format itself (callers pass a complete line)
+		}
+		g.declareFun("fmtline!u", []string{"Str", "Slice"}, "Str")
+		return Val{T: fmt.Sprintf("(fmtline!u %s %s)", fv.T, av.T), Ty: tyStr}
 	case "runestr":
 		v := arg(0)
 		g.runeStrDecl()
